@@ -450,6 +450,10 @@ def measure(mesh, lay, with_nbrs=True):
                 try:
                     got = edge.neighbour_elements()
                     row.append([idx_of.get(id(g), 0) for g in got])
+                    # the caller owns the list it was handed (the driver extends such lists in place): extending it must
+                    # not show in any later answer
+                    if isinstance(got, list):
+                        got += [e, e, e]
                 except AssertionError:
                     row.append([0, 0, 0])     # index 0 never matches: judged as a wrong neighbour list
                 flags.append(bool(edge.on_boundary and not edge.glued))
